@@ -275,6 +275,12 @@ func c17hist(c *Ctx) {
 						rl.treatAs = gen.Pick(r, []slog.Level{-1, -3, -40})
 						c.R.Add("levels_registered_as_treated_as_a_value_below_zero", 1)
 					}
+					if r.P(8) {
+						// the target is Off ("treated as switched off": no logger level admits it except Always, which admits
+						// everything) - the error-device request is a request like any other
+						rl.treatAs = slog.OffLevel
+						c.R.Add("levels_registered_as_treated_as_Off", 1)
+					}
 					if rl.val < 0 && r.P(25) {
 						rl.treatAs = rl.val // "treated as itself" (accepted for values below zero): gated by its own value, like no entry at all
 						c.R.Add("levels_registered_as_treated_as_themselves", 1)
